@@ -46,6 +46,8 @@ def _dialect(fmt, sep, kv, quoted, repeated, trailing):
     }
 
 
+_PROCESS = {"printed": False}  # per process: has any case printed a feature here yet?
+
 class RoundTripLeg(object):
     kind = "hyp"
     name = "roundtrip"
@@ -141,16 +143,20 @@ class RoundTripLeg(object):
         d = dict(case["dialect"])
         mapping = dict((k, list(vs)) for k, vs in case["attrs"])
         cols = case["cols"]
-        if case.get("toggled_before"):
+        if case.get("toggled_before") or not _PROCESS["printed"]:
             # constants.ignore_url_escape_characters was switched on for an earlier print in this process and is
-            # off again now: it must not leave anything behind
+            # off again now: it must not leave anything behind.  Always done by the first case a process runs (before
+            # anything else has been printed there), with every reserved character.
             from gffutils import constants
 
+            every = "".join(chr(c) for c in list(range(0, 32)) + [127]) + ";=%&,"
             constants.ignore_url_escape_characters = True
             try:
+                str(Feature(seqid="c", start=1, end=2, attributes={"ID": ["sw"], "Note": [every]}))
                 str(Feature(seqid="c", start=1, end=2, attributes=dict((k, list(v)) for k, v in mapping.items()), dialect=d))
             finally:
                 constants.ignore_url_escape_characters = False
+        _PROCESS["printed"] = True
         f = Feature(
             seqid=cols[0], source=cols[1], featuretype=cols[2], start=cols[3], end=cols[4],
             score=cols[5], strand=cols[6], frame=cols[7],
